@@ -481,6 +481,16 @@ func runC07(o *out, thorough bool, r *rng, _ []string) map[string]interface{} {
 					kb[k] ^= 0x3C // the buffer now holds another key of the same length
 				}
 				other := stun.MessageIntegrity(kb).Check(dm) == nil
+				// and again and again with the buffer's content alternating between the key and another one (a pooled
+				// HMAC state comes back to the same caller more often than not)
+				for rep := 0; rep < 40 && viaBuf == direct && !(other && len(kb) > 0); rep++ {
+					copy(kb, key)
+					viaBuf = stun.MessageIntegrity(kb).Check(dm) == nil
+					for k := range kb {
+						kb[k] ^= byte(0x11 + rep)
+					}
+					other = stun.MessageIntegrity(kb).Check(dm) == nil
+				}
 				if viaBuf != direct || (other && len(kb) > 0) {
 					o.failFor("C07", "check-depends-on-the-key-buffer", fmt.Sprintf("701 %s - 6,8 %s (key in a reused buffer: %v, fresh copy: %v, after the buffer was overwritten with another key: %v)", fHex(data), fHex(key), viaBuf, direct, other))
 				}
